@@ -4,7 +4,7 @@
 Scans compiler.py, idtracking.py, meta.py, nodes.py of $VERIF_REPO/src/jinja2 with `ast` for
 every place where the ORDER of a set can leak: `for ... in e`, comprehensions / generator
 expressions over e, `next(iter(e))`, `sep.join(e)`, `list(e)`, `tuple(e)`, `enumerate(e)`,
-`map(f, e)`, `zip(.., e, ..)`, starred `*e`, where e is set-typed by a local inference:
+`map(f, e)`, `zip(.., e, ..)`, starred `*e`, `seq += e`, `seq.extend(e)`, `seq + e`, where e is set-typed by a local inference:
   set() / set(...) / frozenset(...) / {a, b} / set comprehensions,
   set methods returning sets (union, intersection, difference, symmetric_difference, copy),
   binary | & - ^ of set-typed operands,
@@ -195,6 +195,12 @@ class Scanner:
                 else:
                     env[st.target.id] = "other"
             return
+        if isinstance(st, ast.AugAssign):
+            # list += set, string accumulation from a set: the set's order lands in a sequence
+            if isinstance(st.op, ast.Add) and self.is_set(st.value, env) and not self.is_set(st.target, env):
+                self.add("augassign", fn, False, st.lineno)
+            self.expr(st.value, fn, env)
+            return
         if isinstance(st, (ast.For, ast.AsyncFor)):
             if isinstance(st.iter, (ast.Tuple, ast.List)) and isinstance(st.target, ast.Tuple):
                 for j, tg in enumerate(st.target.elts):
@@ -257,12 +263,20 @@ class Scanner:
                     self.iter_site(node.args[0].args[0], "next_iter", fn, env, node.lineno)
                 elif isinstance(f, ast.Attribute) and f.attr == "join" and node.args:
                     self.iter_site(node.args[0], "join", fn, env, node.lineno)
+                elif isinstance(f, ast.Attribute) and f.attr in ("extend", "writelines") and node.args \
+                        and not self.is_set(f.value, env):
+                    self.iter_site(node.args[0], f.attr, fn, env, node.lineno)
                 elif isinstance(f, ast.Name) and f.id in ("list", "tuple", "map", "zip") and node.args and not top_iter:
                     for a in node.args[(1 if f.id == "map" else 0):]:
                         self.iter_site(a, f.id, fn, env, node.lineno)
                 elif isinstance(f, ast.Name) and f.id == "sorted" and node.args and not top_iter:
                     if self.is_set(node.args[0], env):
                         self.add("sorted_call", fn, True, node.lineno)
+            elif isinstance(node, ast.BinOp) and isinstance(node.op, ast.Add):
+                # sequence + set-typed operand (list(...) / sorted(...) wrappers are handled above)
+                for side, other in ((node.left, node.right), (node.right, node.left)):
+                    if self.is_set(side, env) and not self.is_set(other, env):
+                        self.add("concat", fn, False, node.lineno)
             elif isinstance(node, ast.Starred):
                 self.iter_site(node.value, "star", fn, env, node.lineno)
 
